@@ -35,49 +35,55 @@ func Member(base interface{}, name string) (interface{}, MStatus) {
 	v := reflect.ValueOf(base)
 	rv, isNil := MemberV(v, name)
 	_ = isNil
-	return rv.val, rv.st
+	return rv.Val, rv.St
 }
 
-type mres struct {
-	val interface{}
-	st  MStatus
-	rv  reflect.Value
+type MRes struct {
+	Val interface{}
+	St  MStatus
+	RV  reflect.Value
 }
 
 // MemberV is Member on reflect.Values (keeps addressability for the C06 resolver).
-func MemberV(v reflect.Value, name string) (mres, bool) {
+func MemberV(v reflect.Value, name string) (MRes, bool) {
 	if !v.IsValid() {
-		return mres{st: MErr}, false
+		return MRes{St: MErr}, false
 	}
 	// methods: on the value itself, or on its address when it is addressable
 	if m := v.MethodByName(name); m.IsValid() {
-		return mres{val: m.Interface(), st: MOk, rv: m}, false
+		if nd, isNil := deref(v); isNil && nd.Kind() == reflect.Ptr {
+			if _, valueRecv := nd.Type().Elem().MethodByName(name); valueRecv {
+				return MRes{St: MErr}, true // a value-receiver method needs to dereference the nil pointer
+			}
+			return MRes{St: MUnspec}, true // pointer-receiver method on a nil pointer: legal Go, not in the statement
+		}
+		return MRes{Val: m.Interface(), St: MOk, RV: m}, false
 	}
 	d, isNil := deref(v)
 	if isNil {
 		// a method with pointer receiver on a nil pointer is callable in Go; leave it out
-		return mres{st: MErr}, true
+		return MRes{St: MErr}, true
 	}
 	if d.CanAddr() {
 		if m := d.Addr().MethodByName(name); m.IsValid() {
-			return mres{val: m.Interface(), st: MOk, rv: m}, false
+			return MRes{Val: m.Interface(), St: MOk, RV: m}, false
 		}
 	} else if d.Kind() == reflect.Struct {
 		if _, ok := reflect.PtrTo(d.Type()).MethodByName(name); ok {
-			return mres{st: MUnspec}, false // pointer method on a non-addressable value
+			return MRes{St: MUnspec}, false // pointer method on a non-addressable value
 		}
 	}
 	if m := d.MethodByName(name); m.IsValid() {
-		return mres{val: m.Interface(), st: MOk, rv: m}, false
+		return MRes{Val: m.Interface(), St: MOk, RV: m}, false
 	}
 	switch d.Kind() {
 	case reflect.Struct:
 		f, ok := d.Type().FieldByName(name)
 		if !ok {
-			return mres{st: MErr}, false
+			return MRes{St: MErr}, false
 		}
 		if f.PkgPath != "" {
-			return mres{st: MErr}, false
+			return MRes{St: MErr}, false
 		}
 		// promoted through a nil embedded pointer: error
 		cur := d
@@ -85,26 +91,26 @@ func MemberV(v reflect.Value, name string) (mres, bool) {
 			if i > 0 {
 				for cur.Kind() == reflect.Ptr {
 					if cur.IsNil() {
-						return mres{st: MErr}, false
+						return MRes{St: MErr}, false
 					}
 					cur = cur.Elem()
 				}
 			}
 			cur = cur.Field(ix)
 		}
-		return mres{val: unwrap(cur), st: MOk, rv: cur}, false
+		return MRes{Val: unwrap(cur), St: MOk, RV: cur}, false
 	case reflect.Map:
 		if d.Type().Key().Kind() != reflect.String {
-			return mres{st: MUnspec}, false
+			return MRes{St: MUnspec}, false
 		}
 		k := reflect.ValueOf(name).Convert(d.Type().Key())
 		e := d.MapIndex(k)
 		if !e.IsValid() {
-			return mres{st: MAbsent}, false
+			return MRes{St: MAbsent}, false
 		}
-		return mres{val: unwrap(e), st: MOk, rv: e}, false
+		return MRes{Val: unwrap(e), St: MOk, RV: e}, false
 	}
-	return mres{st: MErr}, false
+	return MRes{St: MErr}, false
 }
 
 // IndexOf resolves base[idx].
@@ -113,7 +119,7 @@ func IndexOf(base, idx interface{}) (interface{}, MStatus) {
 		return nil, MErr
 	}
 	r := IndexV(reflect.ValueOf(base), idx)
-	return r.val, r.st
+	return r.Val, r.St
 }
 
 func intIndex(idx interface{}) (int, MStatus) {
@@ -134,73 +140,73 @@ func intIndex(idx interface{}) (int, MStatus) {
 	return 0, MErr
 }
 
-func IndexV(v reflect.Value, idx interface{}) mres {
+func IndexV(v reflect.Value, idx interface{}) MRes {
 	d, isNil := deref(v)
 	if isNil {
-		return mres{st: MErr}
+		return MRes{St: MErr}
 	}
 	switch d.Kind() {
 	case reflect.Slice, reflect.Array, reflect.String:
 		if s, ok := idx.(string); ok {
 			_ = s
 			// a string index on a slice could name a method; otherwise it is the wrong kind
-			if m, _ := MemberV(v, s); m.st == MOk {
-				return mres{st: MUnspec}
+			if m, _ := MemberV(v, s); m.St == MOk {
+				return MRes{St: MUnspec}
 			}
-			return mres{st: MErr}
+			return MRes{St: MErr}
 		}
 		i, st := intIndex(idx)
 		if st != MOk {
-			return mres{st: st}
+			return MRes{St: st}
 		}
 		if i < 0 || i >= d.Len() {
-			return mres{st: MErr}
+			return MRes{St: MErr}
 		}
 		e := d.Index(i)
-		return mres{val: unwrap(e), st: MOk, rv: e}
+		return MRes{Val: unwrap(e), St: MOk, RV: e}
 	case reflect.Map:
 		if idx == nil {
-			return mres{st: MUnspec}
+			return MRes{St: MUnspec}
 		}
 		kt := d.Type().Key()
 		kv := reflect.ValueOf(idx)
 		if s, ok := idx.(string); ok {
 			if m := v.MethodByName(s); m.IsValid() {
-				return mres{st: MUnspec}
+				return MRes{St: MUnspec}
 			}
 		}
 		switch {
 		case kv.Type().AssignableTo(kt):
 		case kt.Kind() == reflect.Interface:
-			return mres{st: MUnspec}
+			return MRes{St: MUnspec}
 		case isNumKind(kv.Kind()) && isNumKind(kt.Kind()):
 			if kv.Kind() == reflect.Float64 || kv.Kind() == reflect.Float32 {
 				if f := kv.Float(); f != math.Trunc(f) && kt.Kind() != reflect.Float64 && kt.Kind() != reflect.Float32 {
-					return mres{st: MUnspec}
+					return MRes{St: MUnspec}
 				}
 			}
 			kv = kv.Convert(kt)
 		case kv.Kind() == kt.Kind() && kv.Type().ConvertibleTo(kt):
 			kv = kv.Convert(kt)
 		case kv.Type().ConvertibleTo(kt):
-			return mres{st: MUnspec} // e.g. int -> string conversions
+			return MRes{St: MUnspec} // e.g. int -> string conversions
 		default:
-			return mres{st: MErr}
+			return MRes{St: MErr}
 		}
 		e := d.MapIndex(kv)
 		if !e.IsValid() {
-			return mres{st: MAbsent}
+			return MRes{St: MAbsent}
 		}
-		return mres{val: unwrap(e), st: MOk, rv: e}
+		return MRes{Val: unwrap(e), St: MOk, RV: e}
 	case reflect.Struct:
 		s, ok := idx.(string)
 		if !ok {
-			return mres{st: MErr}
+			return MRes{St: MErr}
 		}
 		m, _ := MemberV(v, s)
 		return m
 	}
-	return mres{st: MErr}
+	return MRes{St: MErr}
 }
 
 func isNumKind(k reflect.Kind) bool {
